@@ -2147,6 +2147,34 @@ func (s *shutRun) judgeWire(k int, v *shutView, ccs []shutCC, tc *TapConn) {
 		s.report("(4) application close after the handshake carries no application CONNECTION_CLOSE (0x1d)", "side %d: frames %+v", k, mine)
 	}
 	s.res.Probe("wire-close-checked:" + v.class)
+	// A client whose handshake is complete but not confirmed (no HANDSHAKE_DONE has reached it) still holds its Handshake
+	// keys, and its peer may not be able to read 1-RTT packets yet (its own handshake completes with the client's Finished,
+	// which may be lost): the close has to go out at the Handshake level as well (RFC 9000 10.2.3), or the peer never
+	// learns of it.
+	if k == 0 && v.class == "app-local" && v.complete > 0 && full {
+		confirmed := false
+		for _, rec := range s.w.Log[1] {
+			for i, p := range rec.Pkts {
+				if !p.Opened || p.Conn == nil || p.Conn.Shadow || rec.PktState[i] == 2 || len(rec.Delivered) == 0 || rec.Delivered[0] > D {
+					continue
+				}
+				for j := range p.Frames {
+					// (HANDSHAKE_DONE confirms, and so does - for this client - an acknowledgement of one of its 1-RTT
+					// packets, RFC 9001 4.1.2)
+					confirmed = confirmed || p.Frames[j].Name == "HANDSHAKE_DONE" || (p.Type == Tap1RTT && p.Frames[j].Name == "ACK")
+				}
+			}
+		}
+		hsLevel := false
+		for _, cc := range mine {
+			hsLevel = hsLevel || cc.ptype == TapHandshake
+		}
+		if !confirmed && !hsLevel {
+			s.report("(4) client closed before its handshake was confirmed, but the close went out at the 1-RTT level only", "side %d: closed at %v, neither HANDSHAKE_DONE nor a 1-RTT acknowledgement had reached the client; frames %+v", k, time.Duration(D), mine)
+		} else if !confirmed {
+			s.res.Probe("close-before-confirmation-at-handshake-level")
+		}
+	}
 	// datagrams carrying the frames, in order
 	var dg []int64
 	seen := map[int]bool{}
